@@ -47,7 +47,7 @@ def _work(args):
     from ampycloud import dynamic
     import ampycloud
     rng = random.Random(f'{seed}:c11:{k}')
-    defaults = copy.deepcopy(dynamic.get_default_prms())
+    defaults = common.packaged_defaults()
     ops = sysworld.gen_history(rng, defaults, rng.randint(5, 16), mistyped=(k % 5 == 0))
     req, obs = sysworld.run_history(ops)
     findings = []
